@@ -350,6 +350,120 @@ theorem presentation_complete (H : List ByteArray → ℤ) (hH : ∀ bs, 0 ≤ H
     simp only [allBytes, Option.map_some, List.append_nil, ← hcdef, beq_self_eq_true]
 
 
+/-- **a presentation that also carries a non-revocation part is complete**, given the pairing
+side: `nrT` / `nrC` are the encoded tau-list and c-list of that part (hashed in front of the
+primary ones, as `add_sub_proof_request` pushes them), and the verifier's recomputation of the
+eight pairing-side values yields the prover's (`nrTaus := .ok (nrT.map Item.bytes)`: that is
+`C10.nonrevoc_complete`, equal exponents have equal encodings).  Then for every key, credential,
+request, blinders, nonce and hash function the model prover `proveSingleWith` — what the driver's
+`prove_nr` operation runs and the real verifier accepts — is accepted by the model verifier that
+holds registry, registry key and revocation key. -/
+theorem presentation_with_nonrevoc_complete (H : List ByteArray → ℤ) (hH : ∀ bs, 0 ≤ H bs ∧ H bs < 2 ^ 256)
+    (m : OvfMode) (pk : PubKey G) (sig : Signature G) (schema nonSchema : List String)
+    (req : SubProofRequest) (pts : List (Pred × NeTape)) (hreq : req.predicates = pts.map (·.1))
+    (common : List (String × ℤ)) (rf : String → G) (val : String → ℤ) (vals : Values)
+    (m2Tilde : ℤ) (tp : EqTape) (nonce : ByteArray) (nrT nrC : List ByteArray) (hnr : nrT ≠ [])
+    (hr : Maps pk.r (unrevealedOf schema nonSchema req.revealed ++ req.revealed) rf)
+    (hv : Maps vals (unrevealedOf schema nonSchema req.revealed ++ req.revealed) val)
+    (hsig : SigValid pk sig rf val (unrevealedOf schema nonSchema req.revealed ++ req.revealed))
+    (he : 2 ^ 596 ≤ sig.e ∧ sig.e < 2 ^ 596 + 2 ^ 119) (ht : 0 ≤ tp.eTilde ∧ tp.eTilde < 2 ^ 456)
+    (hpreds : ∀ pt ∈ pts, PredOk (unrevealedOf schema nonSchema req.revealed) val pt)
+    (hcommon : ∀ a ∈ keys common, a ∈ unrevealedOf schema nonSchema req.revealed) :
+    ∃ prf sp, proveSingleWith (addOps enc) H m Drv.fourSq common pk sig
+        (unrevealedOf schema nonSchema req.revealed) req.revealed pts vals m2Tilde tp nonce nrT nrC
+          = .ok prf ∧ prf.proofs = [sp] ∧ sp.hasNonRevoc = true ∧
+      verify H m (keys common)
+        [⟨addOps enc, pk, schema, nonSchema, req, true, true, true⟩]
+        { prf with proofs := [{ sp with nrTaus := .ok (nrT.map Item.bytes) }] } nonce = .ok true := by
+  set un := unrevealedOf schema nonSchema req.revealed with hun
+  have hunm : ∀ k ∈ un, k ∈ un ++ req.revealed := fun k hk => by simp [hk]
+  -- the equality part, for whatever the challenge turns out to be
+  have heqc : ∀ c : ℤ, 0 ≤ c ∧ c < 2 ^ 256 →
+      ∃ init prf, initEqProof (addOps enc) common pk sig un m2Tilde tp = .ok init ∧
+        finalizeEqProof init c un req.revealed vals = .ok prf ∧
+        verifyEquality (addOps enc) pk prf c un = .ok init.t ∧
+        prf.revealed = req.revealed.map (fun k => (k, val k)) ∧
+        init.mTilde = getMtilde tp.mTilde un common ∧
+        prf.m = un.map (fun k => (k, c * val k + mtOf tp.mTilde common k)) := by
+    intro c hc
+    have hrange := honest_e_in_range c sig.e tp.eTilde hc he ht
+    exact eq_complete' enc pk sig un req.revealed rf val vals common m2Tilde c tp hr hv hsig
+      (by simpa [Gen.largeEStartValueExp, Gen.LARGE_ETILDE, Gen.LARGE_E_START] using hrange)
+  have hvun : Maps vals un val := hv.mono hunm
+  -- first messages (independent of the challenge)
+  obtain ⟨init, prf0, hi, hf0, _, _, hmt0, hm0⟩ := heqc 0 ⟨le_refl _, by positivity⟩
+  have hmtM : Maps init.mTilde un (mtOf tp.mTilde common) := by
+    rw [hmt0]; exact getMtilde_maps tp.mTilde un common
+  obtain ⟨nis, _, hnis, _, _, _⟩ := preds_complete enc m pk init.mTilde vals prf0 0 (le_refl _) un val
+    (mtOf tp.mTilde common) hvun hmtM (by rw [hm0]; exact maps_map_self _ un) pts hpreds
+  -- the challenge
+  set c : ℤ := H (nrT ++ (proverTaus init nis).map (addOps enc).enc ++
+    (nrC ++ (proverCList init nis).map (addOps enc).enc) ++ [nonce]) with hcdef
+  have hc := hH (nrT ++ (proverTaus init nis).map (addOps enc).enc ++
+    (nrC ++ (proverCList init nis).map (addOps enc).enc) ++ [nonce])
+  rw [← hcdef] at hc
+  obtain ⟨init', prf, hi', hf, hve, hrev, _, hm⟩ := heqc c hc
+  have hii : init' = init := by rw [hi] at hi'; cases hi'; rfl
+  subst hii
+  obtain ⟨nis', nes, hnis', hfp, hvn, hpr⟩ := preds_complete enc m pk init'.mTilde vals prf c hc.1 un
+    val (mtOf tp.mTilde common) hvun hmtM (by rw [hm]; exact maps_map_self _ un) pts hpreds
+  have hnn : nis' = nis := by rw [hnis] at hnis'; cases hnis'; rfl
+  subst hnn
+  have hne : (!nrT.isEmpty) = true := by cases nrT with
+    | nil => exact absurd rfl hnr
+    | cons _ _ => rfl
+  refine ⟨{ proofs := [{ eq := prf, ne := nes, hasNonRevoc := !nrT.isEmpty, nrTaus := .ok [] }],
+            cHash := c, cList := nrC ++ (proverCList init' nis').map (addOps enc).enc },
+          { eq := prf, ne := nes, hasNonRevoc := !nrT.isEmpty, nrTaus := .ok [] }, ?_, rfl, hne, ?_⟩
+  · simp only [proveSingleWith, hi', Outcome.bind_ok, hnis', ← hcdef, hf, hfp, Outcome.map_ok]
+  · -- the verifier
+    have hcons : pairConsistent (G := G) { eq := prf, ne := nes, hasNonRevoc := true, nrTaus := .ok (nrT.map Item.bytes) }
+        ⟨addOps enc, pk, schema, nonSchema, req, true, true, true⟩ = true := by
+      simp only [pairConsistent, hrev, keys_map_self, sameSet_self, hpr, hreq, predSameSet_self,
+        Bool.and_self]
+    have hall : (keys common).all (fun a => un.contains a) = true := by
+      simp only [List.all_eq_true, List.contains_iff_mem]
+      exact hcommon
+    obtain ⟨seen', hcp⟩ := commonPass_succeeds (keys common) prf (keys common) []
+      (fun a ha => by rw [hm, lookup_map_self _ un a (hcommon a ha)]; rfl)
+      (fun a v h => by simp [lookup] at h)
+    have hany : nes.any (fun p => !un.contains p.pred.attr) = false := by
+      rw [List.any_eq_false]
+      intro p hp
+      have hpm : p.pred ∈ nes.map (·.pred) := List.mem_map_of_mem hp
+      rw [hpr] at hpm
+      simp only [List.mem_map] at hpm
+      obtain ⟨pt, hpt, hpe⟩ := hpm
+      have := (hpreds pt hpt).1
+      rw [hpe] at this
+      simpa using this
+    simp only [verify, verifyTranscript, List.length_cons, List.length_nil, bne_self_eq_false,
+      Bool.false_eq_true, if_false, allPairsConsistent, hcons, Bool.and_self, Bool.not_true,
+      verifyLoop, hne, Bool.true_and, Bool.and_true, if_true, Bool.not_false, ← hun, hall, hcp,
+      Outcome.bind_ok, verifyPrimaryProof, hve, hany, hvn, Outcome.map_ok]
+    have hitems : (nrT.map Item.bytes ++ List.map (fun g => Item.bytes ((addOps enc).enc g))
+          (init'.t :: List.flatMap (fun x => x.tauList) nis') ++ [] ++
+        List.map Item.bytes (nrC ++ List.map (addOps enc).enc (proverCList init' nis')) ++
+        [Item.bytes nonce])
+        = List.map Item.bytes (nrT ++ (proverTaus init' nis').map (addOps enc).enc ++
+            (nrC ++ (proverCList init' nis').map (addOps enc).enc) ++ [nonce]) := by
+      simp [proverTaus, List.map_map, Function.comp_def]
+    rw [hitems]
+    have := allBytes_bytes (nrT ++ (proverTaus init' nis').map (addOps enc).enc ++
+        (nrC ++ (proverCList init' nis').map (addOps enc).enc) ++ [nonce]) []
+    simp only [List.append_nil] at this
+    rw [this]
+    simp only [allBytes, Option.map_some, List.append_nil, ← hcdef, beq_self_eq_true]
+
+/-- without a pairing-side part `proveSingleWith` is `proveSingle` -/
+theorem prove_single_with_nil (o : GroupOps G) (H : List ByteArray → ℤ) (m : OvfMode)
+    (fs : ℤ → Outcome (List ℤ)) (common : List (String × ℤ)) (pk : PubKey G) (sig : Signature G)
+    (un rev : List String) (pts : List (Pred × NeTape)) (vals : Values) (m2Tilde : ℤ) (tp : EqTape)
+    (nonce : ByteArray) :
+    proveSingleWith o H m fs common pk sig un rev pts vals m2Tilde tp nonce [] []
+      = proveSingle o H m fs common pk sig un rev pts vals m2Tilde tp nonce := by
+  simp [proveSingleWith, proveSingle]
+
 /-! non-vacuity: a concrete key, credential and tape over `ℤ` (toy group) -/
 example : SigValid (G := ℤ) ⟨1, 100, 2, [("a", 3), ("b", 5)]⟩ ⟨4, 7, 5, 9⟩
     (fun k => if k = "a" then 3 else 5) (fun k => if k = "a" then 6 else 6) ["a", "b"] := by
